@@ -140,7 +140,7 @@ Proof.
     inv_some Hs;
       (constructor; simpl; [auto | g_excl Hex | g_free Hfree t | g_incs0 Hi0 t | g_incs1 Hi1 Hex t | auto]).
   - (* LWait *)
-    destruct (l_lock s =? 1); inv_some Hs;
+    destruct (l_lock s =? 1); [destruct (Nat.eqb ch 2); [|destruct (Nat.eqb ch 3)]|]; inv_some Hs;
       (constructor; simpl; [auto | g_excl Hex | g_free Hfree t | g_incs0 Hi0 t | g_incs1 Hi1 Hex t | auto]).
   - (* LBlocked *) discriminate.
   - (* LEnterSeg: nobody else is inside *)
@@ -247,7 +247,7 @@ Proof.
       v_all Vse Vho Hex Hfree t.
   - destruct (l_kind s); inv_some Hs; v_all Vse Vho Hex Hfree t.
   - inv_some Hs; v_all Vse Vho Hex Hfree t.
-  - destruct (l_lock s =? 1); inv_some Hs; v_all Vse Vho Hex Hfree t.
+  - destruct (l_lock s =? 1); [destruct (Nat.eqb ch 2); [|destruct (Nat.eqb ch 3)]|]; inv_some Hs; v_all Vse Vho Hex Hfree t.
   - discriminate.
   - (* LEnterSeg: the read of the counter is covered *)
     pose proof (Vho t Ht) as Hcov.
